@@ -714,3 +714,76 @@ def killpoint_trace(seed, n_events=300, workdir=None, keep_obs=False, listeners=
                 if sch.alive:
                     sch.random_step()
     return rec
+
+
+# ---- C05: convergence after the faults stop ----------------------------------------------------------
+def quiet_period(sch, timeouts=20, submit_on=None):
+    """faults cease: every connection is re-established, all ticks are timely (one heartbeat period apart,
+    all nodes), everything sent is delivered; lasts `timeouts` maximal election timeouts of virtual time"""
+    cfg = sch.rec.cfg
+    sch.heal()
+    rounds = timeouts * (cfg['tmin'] + cfg['tspan']) // (cfg['period'] + 1) + 1
+    fired = {}
+    cid = None
+    for r in range(rounds):
+        for n in sorted(sch.alive):
+            sch.tick(n, cfg['period'] + 1)
+        sch.deliver_all(400)
+        if submit_on is not None and r == rounds // 2:
+            cid = sch.submit(submit_on, size=10, cb=True)
+        for cb, res, err in sch.sim.fired:
+            fired[cb] = err
+    return cid
+
+
+def convergence_problems(rec, sch, cid, fired_log):
+    sim = rec.sim
+    problems = []
+    voters = [n for n in sorted(sch.alive) if n < RO_BASE]
+    leaders = [n for n in voters if sim.nodes[n]._SyncObj__raftState == 2]
+    if len(leaders) != 1:
+        problems.append('after the quiet period there are %d leaders among the running voters %r' % (len(leaders), voters))
+    if cid is not None and fired_log.get(cid) != 0:
+        problems.append('command %d submitted during the quiet period was not acknowledged with SUCCESS (%r)' % (cid, fired_log.get(cid)))
+    states = {}
+    for n in sorted(sch.alive):
+        o = sim.nodes[n]
+        states[n] = (o._SyncObj__raftLastApplied, tuple(o.history))
+    if len(set(states.values())) > 1:
+        problems.append('replicas differ after the quiet period: %r' % dict((n, (a, len(h))) for n, (a, h) in states.items()))
+    return problems
+
+
+def converge_trace(seed, n_events=200, workdir=None, keep_obs=False, listeners=()):
+    """a fault history (partitions, drops, losses, stale leaders, compactions, lagging followers needing a snapshot,
+    read-only nodes) followed by a quiet period; the convergence verdict is stored in rec.convergence"""
+    rng = random.Random(seed)
+    size = rng.choice([2, 3, 3, 4, 5])
+    voters = list(range(1, size + 1))
+    cfg = default_cfg(rng, voters)
+    cfg['queue'] = 1000
+    cfg['fallback'] = rng.choice([50, 300, 3000])
+    rec = Recorder(cfg, workdir)
+    rec.keep_obs = keep_obs
+    fired_log = {}
+
+    def collect(r, ev, nid):
+        for cb, res, err in r.sim.fired:
+            fired_log[cb] = err
+    rec.listeners = list(listeners) + [collect]
+    sch = Scheduler(rec, rng, voters)
+    sch.opts = dict(big=rng.random() < 0.3, budget=rng.random() < 0.2)
+    rec.opts = sch.opts
+    ros = [RO_BASE + i for i in range(rng.choice([0, 0, 1, 2]))]
+    sch.boot(ro=ros)
+    while len(rec.mevents) < n_events:
+        if rng.random() < 0.4:
+            for _ in range(rng.randrange(1, 6)):
+                sch.calm_round()
+        else:
+            for _ in range(rng.randrange(1, 30)):
+                sch.random_step()
+    live = sorted(sch.alive)
+    cid = quiet_period(sch, timeouts=20, submit_on=rng.choice(live))
+    rec.convergence = convergence_problems(rec, sch, cid, fired_log)
+    return rec
